@@ -22,6 +22,7 @@ CONSTANTS Flows,      \* set of flow numbers
           MutOrders,  \* orders whose key the scenario may change
           OrdersUsed, \* orders set_order is called with
           Filters,    \* filters set_filter is called with
+          Acts,       \* names of the calls a model instance explores (a narrow instance can afford longer histories)
           MarkedOnAdd, FreshKeys, MaxOps
 VARIABLES store, view, cache, hasSet, facts, flt, order, rev, mo, focus, ff, started, ops, mon, obs
 vars == <<store, view, cache, hasSet, facts, flt, order, rev, mo, focus, ff, started, ops, mon, obs>>
@@ -34,6 +35,7 @@ Init == /\ store = <<>> /\ view = <<>> /\ cache = [f \in Flows |-> NoCache] /\ h
 Emit(evs) == obs' = evs /\ mon' = FoldEvents(MonStep, mon, evs)
 Live == mon.bad = <<>>
 Run == Live /\ started /\ ops < MaxOps /\ ops' = ops + 1 /\ UNCHANGED <<started, ff>>
+On(a) == a \in Acts
 
 Setup(follow) == /\ Live /\ ~started /\ started' = TRUE /\ ff' = follow /\ UNCHANGED core /\ UNCHANGED ops
                  /\ Emit(<<[k |-> "setup", ff |-> follow]>>)
@@ -86,7 +88,7 @@ BaseCache(st, ca, fc, f, o) == IF o \in MutOrders THEN [ca EXCEPT ![f][o] = Base
 
 \* ---- View.add([f]) --------------------------------------------------------------------------------------------
 Add(f) ==
-  /\ Run /\ ~Stored(store, f)
+  /\ Run /\ On("add") /\ ~Stored(store, f)
   /\ LET st == Append(store, f)
      IN /\ store' = st /\ UNCHANGED <<facts, flt, order, rev, mo>>
         /\ IF Visible(facts, flt, mo, f)
@@ -138,14 +140,14 @@ Update(f, fc) ==    \* fc: the facts after the edit
                   ELSE /\ UNCHANGED <<view, focus>> /\ cache' = ca0 /\ hasSet' = hs0
                        /\ Emit(<<OpEv("update", f, [facts |-> fc[f]], view, rev, focus, hs0, <<>>)>>)
 
-UpdMark(f) == Update(f, [facts EXCEPT ![f].marked = ~@])
-UpdTag(f, t) == Update(f, [facts EXCEPT ![f].tags = IF t \in ToSet(@) THEN SelectSeq(@, LAMBDA x : x # t) ELSE Append(@, t)])
-UpdKey(f, o, k) == k # facts[f].key[o] /\ Update(f, [facts EXCEPT ![f].key[o] = k])
-UpdTouch(f) == Update(f, facts)
+UpdMark(f) == On("mark") /\ Update(f, [facts EXCEPT ![f].marked = ~@])
+UpdTag(f, t) == On("tag") /\ Update(f, [facts EXCEPT ![f].tags = IF t \in ToSet(@) THEN SelectSeq(@, LAMBDA x : x # t) ELSE Append(@, t)])
+UpdKey(f, o, k) == On("key") /\ k # facts[f].key[o] /\ Update(f, [facts EXCEPT ![f].key[o] = k])
+UpdTouch(f) == On("touch") /\ Update(f, facts)
 
 \* ---- View.remove([f]) -------------------------------------------------------------------------------------------
 RemoveFlow(f) ==
-  /\ Run /\ Stored(store, f) /\ UNCHANGED <<facts, flt, order, rev, mo>>
+  /\ Run /\ On("remove") /\ Stored(store, f) /\ UNCHANGED <<facts, flt, order, rev, mo>>
   /\ LET inView == f \in ToSet(view)
          idx == RawIndex(view, f)
          v == Without(view, f)
@@ -180,12 +182,12 @@ Refilter(op, extra, st, fl, m, storeSigs) ==
      /\ Emit(<<OpEv(op, 0, extra, r.v, rev, fo, hs3,
                     <<Sig("refresh", 0, 0)>> \o (IF storeSigs THEN <<Sig("store_refresh", 0, 0)>> ELSE <<>>))>>)
 
-SetFilter(fl) == /\ Run /\ fl # flt /\ flt' = fl /\ UNCHANGED <<store, facts, order, rev, mo>>
+SetFilter(fl) == /\ Run /\ On("setfilter") /\ fl # flt /\ flt' = fl /\ UNCHANGED <<store, facts, order, rev, mo>>
                  /\ Refilter("setfilter", [flt |-> fl], store, fl, mo, FALSE)
-ToggleMarked == /\ Run /\ mo' = ~mo /\ UNCHANGED <<store, facts, flt, order, rev>>
+ToggleMarked == /\ Run /\ On("togglemarked") /\ mo' = ~mo /\ UNCHANGED <<store, facts, flt, order, rev>>
                 /\ Refilter("togglemarked", NoExtra, store, flt, ~mo, FALSE)
 \* clear_not_marked(): pop the unmarked flows from the store; _refilter(); sig_store_refresh
-ClearUnmarked == /\ Run /\ store # <<>> /\ UNCHANGED <<facts, flt, order, rev, mo>>
+ClearUnmarked == /\ Run /\ On("clearunmarked") /\ store # <<>> /\ UNCHANGED <<facts, flt, order, rev, mo>>
                  /\ LET st == SelectSeq(store, LAMBDA g : facts[g].marked)
                     IN store' = st /\ Refilter("clearunmarked", NoExtra, st, flt, mo, TRUE)
 
@@ -198,20 +200,20 @@ SortInto(todo, v, ca, fc, o) ==
            ca2 == IF o \in MutOrders THEN [ca EXCEPT ![f][o] = k] ELSE ca
        IN SortInto(Tail(todo), InsAt(v, f, CountLE(v, ca2, fc, o, k)), ca2, fc, o)
 SetOrder(o) ==
-  /\ Run /\ o # order /\ order' = o /\ UNCHANGED <<store, facts, flt, rev, mo, focus, hasSet>>
+  /\ Run /\ On("setorder") /\ o # order /\ order' = o /\ UNCHANGED <<store, facts, flt, rev, mo, focus, hasSet>>
   /\ LET r == SortInto(view, <<>>, cache, facts, o)
      IN /\ view' = r.v /\ cache' = r.ca
         /\ Emit(<<OpEv("setorder", 0, [order |-> o], r.v, rev, focus, hasSet, <<>>)>>)
 
 \* ---- set_reversed(b): sig_view_refresh ------------------------------------------------------------------------
 SetRev(b) ==
-  /\ Run /\ b # rev /\ rev' = b /\ UNCHANGED <<store, view, cache, hasSet, facts, flt, order, mo>>
+  /\ Run /\ On("setrev") /\ b # rev /\ rev' = b /\ UNCHANGED <<store, view, cache, hasSet, facts, flt, order, mo>>
   /\ LET fo == FocusRefresh(focus, view, b, store, cache, facts, order)
      IN focus' = fo /\ Emit(<<OpEv("setrev", 0, [rev |-> b], view, b, fo, hasSet, <<Sig("refresh", 0, 0)>>)>>)
 
 \* ---- clear(): store and view emptied; sig_view_refresh; sig_store_refresh ------------------------------------
 Clear ==
-  /\ Run /\ store # <<>> /\ store' = <<>> /\ view' = <<>> /\ focus' = 0 /\ hasSet' = {}
+  /\ Run /\ On("clear") /\ store # <<>> /\ store' = <<>> /\ view' = <<>> /\ focus' = 0 /\ hasSet' = {}
   /\ cache' = [f \in Flows |-> NoCache] /\ UNCHANGED <<facts, flt, order, rev, mo>>
   /\ Emit(<<OpEv("clear", 0, NoExtra, <<>>, rev, 0, {}, <<Sig("refresh", 0, 0), Sig("store_refresh", 0, 0)>>)>>)
 
